@@ -264,13 +264,52 @@ def main(tier, seed):
         return c, observed, (e[-400:] if kind != "ok" else "")
 
     results = pmap(one, cases)
+    # ---- two *different* keys given in different sources do not disturb each other: the output must equal the run that has both in the file
+    pairs = [("demo_gen", ("demo_gen.module_name", "modA"), ("demo_gen.relative_js_path", "../pathA")),
+             ("demo_gen", ("demo_gen.module_name", "modB"), ("demo_gen.explicit_generation", True)),
+             ("demo_gen", ("demo_gen.relative_js_path", "../pathB"), ("demo_gen.explicit_generation", True)),
+             ("kotlin", ("lib_name", "libx"), ("kotlin.domain", "org.pair.x")),
+             ("kotlin", ("kotlin.domain", "org.pair.y"), ("kotlin.use_finalizers_not_cleaners", True)),
+             ("kotlin", ("kotlin.lib_name", "liby"), ("kotlin.use_finalizers_not_cleaners", True)),
+             ("nanobind", ("lib_name", "libz"), ("nanobind.unsafe_references_in_callbacks", True))]
+    xcases = []
+    for backend, (k1, v1), (k2, v2) in pairs:
+        extra = []
+        if backend == "kotlin":
+            if not any(k.endswith("lib_name") for k in (k1, k2)):
+                extra.append(("file", "lib_name", "vflib"))
+            if not any(k.endswith("domain") for k in (k1, k2)):
+                extra.append(("file", "kotlin.domain", "dev.vf"))
+        for s1 in SOURCES:
+            for s2 in SOURCES:
+                xcases.append(dict(name="pair_%s_%s_%s_%s_%s" % (backend, k1.split(".")[-1], k2.split(".")[-1], s1, s2), backend=backend,
+                                   settings=[(s1, k1, v1), (s2, k2, v2)] + extra, ref=[("file", k1, v1), ("file", k2, v2)] + extra, keys=(k1, k2), sources=(s1, s2)))
+
+    def xone(c):
+        outs = []
+        for tag, settings in (("run", c["settings"]), ("ref", c["ref"])):
+            d = os.path.join(base, c["name"], tag)
+            entry, cfgp, cli = build_inputs(d, c["backend"], settings, False, with_cb=(c["backend"] == "nanobind"))
+            rc, o, e = toolrun.run_tool(c["backend"], entry, os.path.join(d, "out"), config_file=cfgp, configs=cli)
+            outs.append((rc, digest_dir(os.path.join(d, "out")) if rc == 0 else None, e[-300:]))
+        return c, outs
+    xres = pmap(xone, xcases)
+    for c, ((rc1, d1, e1), (rc2, d2, e2)) in xres:
+        if rc2 != 0:
+            chk.inconc("pair reference %s failed: %s" % (c["name"], e2))
+        elif rc1 != 0 or d1 != d2:
+            chk.violation(c["name"], "%s: %s from %s together with %s from %s does not give the output of both keys in config.toml (%s)" % (
+                c["backend"], c["keys"][0], c["sources"][0], c["keys"][1], c["sources"][1], "tool failed: " + e1 if rc1 != 0 else "outputs differ"),
+                {"case": {k: v for k, v in c.items()}, "dir": os.path.join(base, c["name"])})
     keys = set()
+    for c, _ in xres:
+        keys.add((c["backend"], c["keys"], c["sources"]))
     for c, observed, err in results:
         keys.add((c["backend"], c["key"], tuple(sorted((s, k) for s, k, _ in c["settings"] if k.endswith(c["key"].split(".")[-1])))))
         if observed != c["expect"]:
             chk.violation(c["name"], "%s %s: expected effective value %r (%s) but the output shows %r" % (c["backend"], c["key"], c["expect"], c["why"], observed),
                           {"case": {k: v for k, v in c.items()}, "observed": observed, "stderr": err, "dir": os.path.join(base, c["name"])})
-    chk.evaluations = len(results) + len(refs)
+    chk.evaluations = len(results) + len(refs) + 2 * len(xres)
     chk.distinct = keys
     chk.exhaustive = True
     chk.rule = ("for lib_name (kotlin, nanobind): every non-empty subset of the six (source in file/cli/attribute) x (shared/language-scoped) slots with "
@@ -278,6 +317,8 @@ def main(tier, seed):
                 "every subset of sources x every value pattern; unsafe_references_in_callbacks: every subset of slots x two boolean patterns on "
                 "kotlin/nanobind/c/cpp; file keys alternate kebab/snake case, attribute values alternate quoted/bare. Effective value read back from "
                 "the output (package path, Native.load, <lib>_ext.cpp, acceptance of &Opaque in callbacks, digest equal to a single-source reference). "
+                "Pairs of different keys (demo_gen.module_name / relative_js_path / explicit_generation, kotlin lib_name / domain / finalizers, nanobind lib_name / "
+                "unsafe refs) in every ordered pair of sources must give the output of both keys in config.toml. "
                 "distinct_nontrivial = distinct (backend, key, set of (source, spelled key)) combinations.")
     chk.extra = {"cases": len(cases), "reference_runs": len(refs), "keys": sorted({c["key"] for c in cases})}
     for c, observed, err in results[:2] + results[200:201]:
